@@ -22,7 +22,10 @@
 #include "convert.h"
 #include "types.h"
 #include "meta.h"
+#include "values.h"
 #include "mc.hpp"
+#include <sys/syscall.h>
+#include <unistd.h>
 
 using namespace mc;
 typedef unsigned __int128 u128;
@@ -299,7 +302,6 @@ struct Cnt {
 		r.count(std::string(pfx) + "refused_representable(spurious,not flagged)", refused_rep);
 		r.count(std::string(pfx) + "query_mode_agrees", query_agree);
 		if (retsize) r.count(std::string(pfx) + "return_size!=target_size(not flagged)", retsize);
-		if (wsonly) r.count(std::string(pfx) + "whitespace_only_consumed,nothing_stored(not flagged)", wsonly);
 		{ std::map<std::string, uint64_t> m; for (auto &c : cls) m[c.first] += c.second; for (auto &c : m) r.count(std::string(pfx) + "input:" + c.first, c.second); }
 		if (report.extra) r.count("violations_beyond_per-signature_cap(not listed)", report.extra);
 	}
@@ -631,7 +633,7 @@ static std::string cxx_pair(Tier tier, int entry, char A, char B)
 
 // ------------------------------------------------------------------ text part
 enum TFn { F_CINT8, F_CINT16, F_CINT32, F_CINT64, F_CCHAR, F_CINT, F_CLONG, F_CUINT8, F_CUINT16, F_CUINT32, F_CUINT64, F_CUCHAR, F_CUINT, F_CULONG,
-           F_CFLOAT, F_CDOUBLE, F_CLDOUBLE, F_NUMBER, F_STRING };
+           F_CFLOAT, F_CDOUBLE, F_CLDOUBLE, F_NUMBER, F_STRING, F_ITERSTR, F_ITERFILE };
 struct TEntry { const char *name; char dst; TFn fn; };
 static const TEntry TENT[] = {
 	{"mpt_cint8", 'b', F_CINT8}, {"mpt_cint16", 'n', F_CINT16}, {"mpt_cint32", 'i', F_CINT32}, {"mpt_cint64", 'x', F_CINT64},
@@ -750,8 +752,10 @@ static const char *fclass(const Dec &D, const TI &T, bool &rep)
 	rep = true;   // exactly or by rounding: decided at the comparison
 	return "finite";
 }
+static void check_iter_text(Run &r, TJob &J, const std::string &str, const Vec &vec);
 static void check_text(Run &r, TJob &J, const std::string &str, const Vec &vec)
 {
+	if (J.fn >= F_ITERSTR) { check_iter_text(r, J, str, vec); return; }
 	const TI &T = ti(J.dst);
 	bool chartarget = J.dst == 'c';
 	int pbase = (J.fn == F_NUMBER || J.fn == F_STRING) ? 0 : J.base;
@@ -796,13 +800,13 @@ static void check_text(Run &r, TJob &J, const std::string &str, const Vec &vec)
 		std::string cons = str.substr(0, retA);
 		if (chartarget) {
 			size_t k = 0; while (k < cons.size() && sp(cons[k])) ++k;
-			if (k == cons.size()) { if (changed) report(r, sigbase + "whitespace-only|wrong-value", vec, desc() + ": only white space consumed but a value was stored"); else ++J.c.wsonly; break; }
+			if (k == cons.size()) { if (changed) report(r, sigbase + "whitespace-only|wrong-value", vec, desc() + ": only white space consumed but a value was stored"); else report(r, sigbase + "whitespace-only|no-value-stored", vec, desc() + fmt(": returns %d (success, %d characters consumed) but the consumed white space denotes no number and nothing was stored", retA, retA)); break; }
 			if (k + 1 != cons.size() || (char) got[0] != cons[k]) { report(r, sigbase + "character|wrong-value", vec, desc() + fmt(": consumed %s but stored byte %s", quote(cons).c_str(), hex(got, 1).c_str())); break; }
 			++J.c.exact; break;
 		}
 		if (T.kind != KF) {
 			IntNum n = parse_int(cons.data(), cons.size(), pbase);
-			if (n.wsonly) { if (changed) report(r, sigbase + "whitespace-only|wrong-value", vec, desc() + ": only white space consumed but a value was stored"); else ++J.c.wsonly; break; }
+			if (n.wsonly) { if (changed) report(r, sigbase + "whitespace-only|wrong-value", vec, desc() + ": only white space consumed but a value was stored"); else report(r, sigbase + "whitespace-only|no-value-stored", vec, desc() + fmt(": returns %d (success, %d characters consumed) but the consumed white space denotes no number and nothing was stored", retA, retA)); break; }
 			if (!n.valid) { report(r, sigbase + "not-a-numeral|wrong-value", vec, desc() + fmt(": the %d consumed characters %s are not a numeral; stored %s", retA, quote(cons).c_str(), hex(got, T.size).c_str())); break; }
 			bool rep; const char *cls = iclass(n, T, rep);
 			i128 g = readint(J.dst, got);
@@ -815,7 +819,7 @@ static void check_text(Run &r, TJob &J, const std::string &str, const Vec &vec)
 			++J.c.exact; break;
 		}
 		FltNum f = parse_flt(cons.data(), cons.size());
-		if (f.wsonly) { if (changed) report(r, sigbase + "whitespace-only|wrong-value", vec, desc() + ": only white space consumed but a value was stored"); else ++J.c.wsonly; break; }
+		if (f.wsonly) { if (changed) report(r, sigbase + "whitespace-only|wrong-value", vec, desc() + ": only white space consumed but a value was stored"); else report(r, sigbase + "whitespace-only|no-value-stored", vec, desc() + fmt(": returns %d (success, %d characters consumed) but the consumed white space denotes no number and nothing was stored", retA, retA)); break; }
 		if (!f.valid) { report(r, sigbase + "not-a-numeral|wrong-value", vec, desc() + fmt(": the %d consumed characters %s are not a numeral; stored %s", retA, quote(cons).c_str(), hex(got, T.size).c_str())); break; }
 		bool rep; const char *cls = fclass(f.d, T, rep);
 		ld g = readnum(J.dst, got);
@@ -839,6 +843,123 @@ static void check_text(Run &r, TJob &J, const std::string &str, const Vec &vec)
 	free(s);
 }
 
+// ------------------------------------------------------------------ text delivered through iterators
+// mpt_iterator_string(text) and mpt_iterator_file(fd of a file holding the text), elements taken with
+// mpt_iterator_consume().  These report no consumed length, so the oracle is: an accepted element must
+// hold a number denoted by SOME substring of the text (any start, any end, base 0 or 10; for 'c' some
+// character of the text) -- a wrapped / saturated / uninitialised value is denoted by none; a refusal
+// leaves the destination untouched; a fresh iterator asked in query mode gives the same first verdict.
+static bool denoted_by_substring(const std::string &str, const TI &T, char dst, const unsigned char *got)
+{
+	size_t len = str.size();
+	if (dst == 'c') return memchr(str.data(), (char) got[0], len) != 0;
+	if (T.kind != KF) {
+		i128 g = readint(dst, got);
+		for (size_t i = 0; i < len; ++i) for (size_t j = len; j > i; --j) for (int base = 0; base <= 10; base += 10) {
+			IntNum n = parse_int(str.data() + i, j - i, base);
+			if (n.valid && !n.over && n.mag <= ((u128) 1 << 100) && (n.neg ? -(i128) n.mag : (i128) n.mag) == g) return true;
+		}
+		return false;
+	}
+	ld g = readnum(dst, got);
+	for (size_t i = 0; i < len; ++i) for (size_t j = len; j > i; --j) {
+		FltNum f = parse_flt(str.data() + i, j - i);
+		if (!f.valid) continue;
+		if (f.d.special == 2) { if (g != g) return true; continue; }
+		if (g != g) continue;
+		if (f.d.special == 1) { if (std::isinf(g) && (g < 0) == f.d.neg) return true; continue; }
+		if (std::isinf(g)) continue;
+		if (!f.d.mant.zero() && g != 0 && (g < 0) != f.d.neg) continue;
+		uint64_t M; int q; fmt_split(T, fabsl(g), M, q);
+		int c0 = cmp_mag(f.d, M, q);
+		bool ok = c0 == 0 || (c0 < 0 ? (M && cmp_mag(f.d, M - 1, q) >= 0) : (M == UINT64_MAX ? cmp_mag(f.d, (uint64_t) 1 << 63, (long) q + 1) <= 0 : cmp_mag(f.d, M + 1, q) <= 0));
+		if (ok) return true;
+	}
+	return false;
+}
+struct TextIter {
+	mpt::metatype *mt; mpt::iterator *it;
+	TextIter() : mt(0), it(0) {}
+	bool open(TFn fn, const char *s, size_t len)
+	{
+		if (fn == F_ITERSTR) mt = mpt::mpt_iterator_string(s, 0);
+		else {
+			int fd = (int) syscall(SYS_memfd_create, "c07", 0);
+			if (fd < 0) return false;
+			if (len && write(fd, s, len) != (ssize_t) len) { close(fd); return false; }
+			lseek(fd, 0, SEEK_SET);
+			if (!(mt = mpt::mpt_iterator_file(fd))) { close(fd); return false; }
+		}
+		if (!mt) return false;
+		if (mt->convert(mpt::TypeIteratorPtr, &it) < 0 || !it) { mt->unref(); mt = 0; return false; }
+		return true;
+	}
+	void done() { if (mt) mt->unref(); mt = 0; it = 0; }
+};
+static void check_iter_text(Run &r, TJob &J, const std::string &str, const Vec &vec)
+{
+	const TI &T = ti(J.dst);
+	size_t len = str.size();
+	char *s = (char *) malloc(len + 1); memcpy(s, str.c_str(), len + 1);
+	void *dst = J.dest;
+	unsigned char pat[16]; memset(pat, PAT, 16);
+	++J.c.cases; ++r.states;
+	auto desc = [&]() { return fmt("%s(%s) + mpt_iterator_consume -> '%c'", J.name.c_str(), quote(str).c_str(), J.dst); };
+	bool in_rep = false; const char *in_cls = "no-numeral";
+	if (J.dst != 'c') for (size_t n = len; n > 0; --n) {
+		if (T.kind == KF) { FltNum f = parse_flt(s, n); if (f.valid) { in_cls = fclass(f.d, T, in_rep); break; } }
+		else { IntNum i = parse_int(s, n, 0); if (i.valid) { in_cls = iclass(i, T, in_rep); break; } }
+	}
+	else in_cls = "character";
+	++J.c.cls[in_cls];
+	if (!in_rep && strcmp(in_cls, "no-numeral") && J.dst != 'c') ++J.c.nontrivial;
+	std::string sigbase = J.name + "|" + J.dst + "|" + in_cls + "|";
+	asan_error();
+	int first = INT_MIN;
+	volatile int elem = 0;
+	int sig;
+	std::string fail, failsig;
+	unsigned char got[16];
+	GUARD(sig, {
+		TextIter ti_;
+		if (ti_.open(J.fn, s, len)) {
+			for (elem = 0; elem < 3; ++elem) {
+				memset(dst, PAT, T.size);
+				int ret = mpt::mpt_iterator_consume(ti_.it, (mpt::type_t) J.dst, dst);
+				++r.transitions;
+				memcpy(got, dst, T.size);
+				if (!elem) first = ret;
+				if (r.replaying) r.note("%s: element %d perform ret=%d dest=%s", desc().c_str(), (int) elem, ret, hex(got, T.size).c_str());
+				if (ret < 0) {
+					if (memcmp(got, pat, T.size)) { failsig = "refused-but-wrote"; fail = fmt(": element %d refused (%d) but destination changed to %s", (int) elem, ret, hex(got, T.size).c_str()); }
+					else if (!elem) { if (in_rep) ++J.c.refused_rep; else ++J.c.refused_unrep; }
+					break;
+				}
+				if (!denoted_by_substring(str, T, J.dst, got)) {
+					failsig = "wrong-value";
+					fail = fmt(": element %d accepted (ret %d) but the delivered value %s (bytes %s)%s is not denoted by any part of the text", (int) elem, ret,
+						T.kind == KF ? ldstr(readnum(J.dst, got)).c_str() : i128str(readint(J.dst, got)).c_str(), hex(got, T.size == 16 ? 10 : T.size).c_str(), memcmp(got, pat, T.size) ? "" : " = untouched");
+					break;
+				}
+				++J.c.exact;
+			}
+			ti_.done();
+		} else first = -9999;
+	});
+	if (sig) { report(r, sigbase + "perform-" + signame(sig), vec, desc() + fmt(": faults at element %d", (int) elem)); free(s); return; }
+	if (asan_error()) { report(r, sigbase + "asan", vec, desc() + ": memory access outside the text / destination (AddressSanitizer)"); free(s); return; }
+	if (!failsig.empty()) { report(r, sigbase + failsig, vec, desc() + fail); free(s); return; }
+	if (first == -9999) { ++J.c.cls["iterator-not-created"]; free(s); return; }
+	int q = INT_MIN;
+	GUARD(sig, { TextIter ti_; if (ti_.open(J.fn, s, len)) { q = mpt::mpt_iterator_consume(ti_.it, (mpt::type_t) J.dst, 0); ++r.transitions; ti_.done(); } });
+	if (r.replaying) r.note("%s: query ret=%d%s", desc().c_str(), sig ? 0 : q, sig ? " FAULT" : "");
+	if (sig) report(r, sigbase + "query-" + signame(sig), vec, desc() + ": query mode (dest=NULL) faults");
+	else if (asan_error()) report(r, sigbase + "asan", vec, desc() + ": memory access outside the text (AddressSanitizer) in query mode");
+	else if ((q < 0) != (first < 0)) report(r, sigbase + "query-verdict-differs", vec, desc() + fmt(": first element: perform returned %d, query (dest=NULL, fresh iterator) returned %d", first, q));
+	else ++J.c.query_agree;
+	free(s);
+}
+
 // ------------------------------------------------------------------ jobs
 static const int VBLOCK = 4096, TBLOCK = 2048, SWBLOCK = 1 << 16, SLICES = 16;
 static int short_len(Tier t) { return t == Quick ? 5 : 6; }
@@ -855,6 +976,7 @@ void mc_jobs(Tier t, std::vector<std::string> &jobs)
 		else for (int b : bases) jobs.push_back(fmt("txt:%s:%d", TENT[i].name, b));
 	}
 	for (const char *d = DST; *d; ++d) { jobs.push_back(fmt("txt:mpt_convert_number>%c:0", *d)); jobs.push_back(fmt("txt:mpt_convert_string>%c:0", *d)); }
+	for (const char *d = DST; *d; ++d) { jobs.push_back(fmt("txt:mpt_iterator_string>%c:0", *d)); jobs.push_back(fmt("txt:mpt_iterator_file>%c:0", *d)); }
 	// development aid (never set by ./check): restrict to jobs containing a substring
 	if (const char *only = getenv("C07_ONLY")) { std::vector<std::string> k; for (auto &j : jobs) if (j.find(only) != std::string::npos) k.push_back(j); jobs.swap(k); }
 }
@@ -886,11 +1008,12 @@ static void setup(JobCtx &jc, Run &r, const std::string &job)
 		TJob &J = jc.tj;
 		J.base = atoi(p[2].c_str());
 		size_t gt = p[1].find('>');
-		if (gt != std::string::npos) { J.name = p[1].substr(0, gt); J.dst = p[1][gt + 1]; J.fn = J.name == "mpt_convert_number" ? F_NUMBER : F_STRING; }
+		if (gt != std::string::npos) { J.name = p[1].substr(0, gt); J.dst = p[1][gt + 1]; J.fn = J.name == "mpt_convert_number" ? F_NUMBER : (J.name == "mpt_convert_string" ? F_STRING : (J.name == "mpt_iterator_string" ? F_ITERSTR : F_ITERFILE)); }
 		else for (int i = 0; i < NTENT; ++i) if (p[1] == TENT[i].name) { J.name = p[1]; J.dst = TENT[i].dst; J.fn = TENT[i].fn; }
 		J.dest = malloc(ti(J.dst).size);
 		build_grid();
-		jc.nshort = short_count(short_len(r.tier));
+		// the iterator entries (one memfd / iterator object per string) stay at length 5 in both tiers
+		jc.nshort = short_count(J.fn >= F_ITERSTR ? 5 : short_len(r.tier));
 	}
 }
 static void body(Run &r, JobCtx &jc, Ctx &x)
@@ -957,7 +1080,7 @@ static void body(Run &r, JobCtx &jc, Ctx &x)
 		r.hint((J.name + "|" + J.dst).c_str());
 		uint64_t lo = blk * TBLOCK, hi = std::min(total, lo + TBLOCK);
 		if (single) { uint64_t i = lo + x.choose(TBLOCK + 1) - 1; check_text(r, J, fam ? short_string(i) : g_grid[i], x.taken); return; }
-		if (!blk) r.sample(fam ? fmt("%s base %d: all %llu strings up to length %d over \"%s\"", J.name.c_str(), J.base, (unsigned long long) total, short_len(r.tier), SIGMA)
+		if (!blk) r.sample(fam ? fmt("%s base %d: all %llu strings up to length %d over \"%s\"", J.name.c_str(), J.base, (unsigned long long) total, J.fn >= F_ITERSTR ? 5 : short_len(r.tier), SIGMA)
 		                       : fmt("%s base %d: %zu grid numerals, e.g. %s %s %s", J.name.c_str(), J.base, g_grid.size(), quote(g_grid[200]).c_str(), quote(g_grid[g_grid.size() / 2]).c_str(), quote(g_grid[g_grid.size() - 300]).c_str()));
 		Vec v = x.taken; v.push_back(0);
 		for (uint64_t i = lo; i < hi; ++i) { v[2] = i - lo + 1; check_text(r, J, fam ? short_string(i) : g_grid[i], v); }
